@@ -29,6 +29,7 @@ func init() {
 			Trusted:     commonTrusted,
 		},
 		Mutants: []Mutant{
+			{Name: "'.' keeps the interface wrapping of the element (original defect)", File: "eval.go", Old: "st.context = indirectEface(rangeValue)", New: "st.context = rangeValue", Rule: "C05.bind"},
 			{Name: "else branch executed although the condition held (no else keyword)", File: "eval.go", Old: "\t\t\t\tifReturn = st.executeList(node.List)\n\t\t\t} else if node.ElseList != nil {\n\t\t\t\tifReturn = st.executeList(node.ElseList)\n\t\t\t}", New: "\t\t\t\tifReturn = st.executeList(node.List)\n\t\t\t}\n\t\t\tif node.ElseList != nil {\n\t\t\t\tifReturn = st.executeList(node.ElseList)\n\t\t\t}", Rule: "C05.if"},
 			{Name: "range calls Range twice per iteration (skips every other element)", File: "eval.go", Old: "\t\t\t\t\trangeReturn = st.executeList(node.List)\n\t\t\t\t\tindexValue, rangeValue, end = ranger.Range()\n", New: "\t\t\t\t\trangeReturn = st.executeList(node.List)\n\t\t\t\t\tindexValue, rangeValue, end = ranger.Range()\n\t\t\t\t\tif !end && !isTrue(rangeValue) {\n\t\t\t\t\t\tindexValue, rangeValue, end = ranger.Range()\n\t\t\t\t\t}\n", Rule: "C05.loop"},
 			{Name: "else list also runs after a non-empty range", File: "eval.go", Old: "\t\t\t} else if node.ElseList != nil {\n\t\t\t\trangeReturn = st.executeList(node.ElseList)\n\t\t\t}\n\t\t\tif rangeReturn.IsValid() {", New: "\t\t\t}\n\t\t\tif end && node.ElseList != nil {\n\t\t\t\trangeReturn = st.executeList(node.ElseList)\n\t\t\t}\n\t\t\tif rangeReturn.IsValid() {", Rule: "C05.loop"},
@@ -161,6 +162,10 @@ func runC05(c *an.Ctx) {
 	var through func(e ast.Expr, depth int) ast.Expr
 	through = func(e ast.Expr, depth int) ast.Expr {
 		e = an.Unparen(e)
+		// the element unwrapped from the interface{} it may be stored in is still the element
+		if call, ok := e.(*ast.CallExpr); ok && len(call.Args) == 1 && an.IsCallTo(info, call, "jet.indirectEface") {
+			e = an.Unparen(call.Args[0])
+		}
 		if id, ok := e.(*ast.Ident); ok && depth < 4 {
 			if v, ok := an.ObjOf(info, id).(*types.Var); ok {
 				if bs := binds[v]; len(bs) == 1 {
@@ -329,6 +334,12 @@ func runC05(c *an.Ctx) {
 			// '.' becomes the current element exactly when there is no value variable
 			if p.FieldKey(info, lhs) == "Runtime.context" {
 				if _, isVal := identIn(rhs, valVars); isVal {
+					// the element of a []interface{} (map[K]interface{}, chan interface{}) arrives wrapped: like a loop
+					// variable (unwrapped when it is looked up) '.' must be the element itself, or {{if .}} is true
+					// for a wrapped 0, "" or false
+					if call, ok := an.Unparen(rhs).(*ast.CallExpr); !ok || !an.IsCallTo(info, call, "jet.indirectEface") {
+						addOnce(&bindBad, lhs.Pos(), "'.' is set to the element as the ranger returned it, not unwrapped from the interface it may be stored in (indirectEface): truthiness and conversions of '.' differ from those of a loop variable", st)
+					}
 					if valSlot == nil || !an.FactIs(st, an.RoleOf(valSlot)+" < 0", true) {
 						addOnce(&bindBad, lhs.Pos(), "'.' is set to the current element on a path where a value variable may exist (value slot < 0 not established)", st)
 					} else {
